@@ -426,6 +426,79 @@ def c15_4b(ck, prog):
             r.ok('_dbus_timeout_restart:%s' % what)
 
 
+def c15_9(ck, prog, rid='C15.9'):
+    r = ck.rule(rid, 'descriptor passing counts as negotiated only after the peer agreed: the flag is set on the '
+                'client when AGREE_UNIX_FD was received, on the server when it answers NEGOTIATE_UNIX_FD while passing '
+                'is possible on the transport, and nowhere else', 'TS',
+                breaks='a peer that refused (or never saw) NEGOTIATE_UNIX_FD is sent descriptors', floor=2)
+    AUTH = 'dbus/dbus-auth.c'
+    agree = prog.enums.get('DBUS_AUTH_COMMAND_AGREE_UNIX_FD')
+    nego = prog.enums.get('DBUS_AUTH_COMMAND_NEGOTIATE_UNIX_FD')
+    if agree is None or nego is None:
+        raise AnalysisBroken('auth command enumerators not found')
+    sites = 0
+    for f, line, how, rhs, lhs in lib.field_writes(prog, 'DBusAuth', 'unix_fd_negotiated'):
+        if how != '=' or rhs is None or is_int(rhs, 0):
+            continue
+        sites += 1
+    setters = {f.name for f, line, how, rhs, lhs in lib.field_writes(prog, 'DBusAuth', 'unix_fd_negotiated')
+               if how == '=' and rhs is not None and not is_int(rhs, 0)}
+    for name in sorted(setters):
+        fn = prog.fn(name, AUTH)
+        cmdp = [p for p in fn.params if p.get('t') == 'DBusAuthCommand']
+        if cmdp:
+            cid = cmdp[0]['id']
+
+            def on_event(user, ev, ctx, cid=cid, fn=fn):
+                for lhs, how, rhs in written_lvalues(ev):
+                    if is_member(lhs, 'unix_fd_negotiated', 'DBusAuth') and how == '=' and not is_int(rhs, 0):
+                        v = ctx.env.get(('v', cid))
+                        if not (v and v[0] == 'c' and v[1] == agree):
+                            ctx.report('descriptor passing is marked as negotiated while handling command %s, not '
+                                       'AGREE_UNIX_FD' % (v[1] if v and v[0] == 'c' else 'unknown'), ev['line'],
+                                       key=('client', ev['line']))
+                return user
+            ex = Explorer(fn, on_event=on_event, track={cmdp[0]['name']}, cap=200000).run()
+            if ex.reports:
+                r.from_reports(ex.reports, keyfn=lambda k, rep, fn=fn: '%s:set-without-agree' % fn.name)
+            else:
+                r.ok('%s:set-on-agree-only' % fn.name)
+        else:
+            # a sender of the agreement: reachable only from the handler of NEGOTIATE_UNIX_FD with passing possible
+            callers = [(g, c) for (g, b, i, c) in prog.call_sites(name) if prog.is_production(g)]
+            okc = bool(callers)
+            for g, c in callers:
+                gp = [p for p in g.params if p.get('t') == 'DBusAuthCommand']
+                if not gp:
+                    okc = False
+                    continue
+                hit = {}
+
+                def on_event(user, ev, ctx, gp=gp, c=c, hit=hit):
+                    if ev['ev'] == 'call' and ev['e']['id'] == c['id']:
+                        v = ctx.env.get(('v', gp[0]['id']))
+                        hit[(v[1] if v and v[0] == 'c' else None, ctx.atom('possible'))] = ev['line']
+                    return user
+
+                def akey(atom, resolve):
+                    if atom[0] == 'truthy' and is_member(atom[1], 'unix_fd_possible', 'DBusAuth'):
+                        return 'possible'
+                    return None
+                Explorer(g, on_event=on_event, atom_key=akey, track={gp[0]['name']}, cap=200000).run()
+                for (cmd, poss), line in hit.items():
+                    if cmd != nego or poss is not True:
+                        okc = False
+                        r.violation('%s:agreement-sent' % g.name, g.name, AUTH, line,
+                                    'the server agrees to descriptor passing while handling command %s with '
+                                    'unix_fd_possible %s' % (cmd, poss))
+            if okc:
+                r.ok('%s:only-answering-negotiate' % name)
+            elif not callers:
+                r.violation('%s:callers' % name, name, AUTH, fn.line, 'no caller found')
+    if sites < 2:
+        raise AnalysisBroken('unix_fd_negotiated setters not found (%d)' % sites)
+
+
 def run(ck):
     ck.explanation = (
         'Static rules over dbus-sysdeps-unix.c, dbus-message.c, dbus-transport-socket.c, dbus-connection.c, '
@@ -445,3 +518,4 @@ def run(ck):
         c15_4b(ck, prog)
         from rules.C11 import c11_6
         c11_6(ck, prog, 'C15.8')
+        c15_9(ck, prog)
